@@ -133,7 +133,9 @@ def run(prop, tier):
                 row = []
                 for i, p in enumerate(w["pars"]):
                     a, b = abs(float(lo[i])), abs(float(hi[i]))
-                    if p["timed"] or rep % 2 == 0:
+                    # (program capacities and the programs' on / off gate become *stepped* series in the instructions: they are kept constant, because
+                    #  a value that jumps exactly at a grid point is read differently when the restarted time grid differs in the last bit - see section 14)
+                    if p["timed"] or rep % 2 == 0 or p.get("pseudo"):
                         row.append(Fr(lo[i]) if p["units"] == "proportion" or p["timed"] else Fr(a))
                     elif p["units"] == "proportion":
                         row.append(Fr(lo[i]) + (Fr(hi[i]) - Fr(lo[i])) * Fr(k, K))
